@@ -166,7 +166,8 @@ class MinPathCover(pathmodel.AbstractPathModelDAG):
 
         self.solve_time_start = time.perf_counter()
         
-        for i in range(self.get_lowerbound_k(), self.G.number_of_edges() + 1):
+        # Without constraints the number of edges is an upper bound on the optimum; every constraint may need one more path/walk
+        for i in range(self.get_lowerbound_k(), self.G.number_of_edges() + len(self.subpath_constraints or []) + 1):
             utils.logger.info(f"{__name__}: iteration with k = {i}")
 
             i_solver_options = copy.deepcopy(self.solver_options)
